@@ -262,6 +262,92 @@ theorem iterate_fields {e : Env} {a a' : Auc} {now twaC twaD : Int} {actC actD :
             · cases h; exact ⟨rfl, rfl⟩
       · cases h; exact ⟨rfl, rfl⟩
 
+theorem priceUpdate_fields {e : Env} {a a' : Auc} {now twaD : Int} {actD : Bool}
+    (h : priceUpdate e a now twaD actD = .ok a') : a'.outCur = a.outCur ∧ a'.inCur = a.inCur := by
+  unfold priceUpdate at h
+  simp only [bind, Except.bind, pure, Except.pure] at h
+  split at h
+  · cases h
+  · split at h
+    · cases h
+    · cases h; exact ⟨rfl, rfl⟩
+
+/-- **emergency-shutdown wind-down**: whatever branch is taken, the module account gives up exactly the unsold collateral (to the
+vault module or to the ESM module) and exactly what was collected (burned, the excess over the principal to the collector) -/
+theorem windDown_ok {e : Env} {s s' : St} {a : Auc} {snapshot : Bool} (hpr : 0 ≤ e.principal) (hout : 0 ≤ a.outCur) (hin : 0 ≤ a.inCur)
+    (h : windDown e s a snapshot = .ok s') :
+    s'.auc = none ∧ s'.paid = s.paid ∧ s'.recv = s.recv ∧ s'.otherC = s.otherC ∧ s'.otherD = s.otherD ∧
+    s'.bank.get .auction .coll = s.bank.get .auction .coll - a.outCur ∧
+    s'.bank.get .auction .debt = s.bank.get .auction .debt - a.inCur ∧
+    (s'.bank.get .vaultMod .coll - s.bank.get .vaultMod .coll) + (s'.bank.get .esm .coll - s.bank.get .esm .coll) = a.outCur ∧
+    (s'.burned - s.burned) + (s'.bank.get .collector .debt - s.bank.get .collector .debt) = a.inCur ∧
+    (a.inCur < e.principal → s'.bank.get .vaultMod .coll = s.bank.get .vaultMod .coll + a.outCur ∧ s'.burned = s.burned + a.inCur) ∧
+    (e.principal ≤ a.inCur → s'.bank.get .esm .coll = s.bank.get .esm .coll + a.outCur ∧ s'.burned = s.burned + e.principal ∧
+        s'.bank.get .collector .debt = s.bank.get .collector .debt + (a.inCur - e.principal)) := by
+  unfold windDown at h
+  split at h
+  · rename_i hlt
+    split at h
+    · cases h
+    · rename_i b1 hb1
+      have d1 := sendPos_ok hb1 (by decide)
+      rw [DutchV2.posPart_of_nonneg hout] at d1
+      split at h
+      · cases h
+      · rename_i b2 hb2
+        cases h
+        have d2 : ∀ a' d', b2.get a' d' = b1.get a' d' - (if a' = Acct.auction ∧ d' = Denom.debt then a.inCur else 0) := by
+          split at hb2
+          · exact (burn_ok hb2).2
+          · rename_i hz
+            cases hb2
+            intro a' d'
+            have : a.inCur = 0 := by omega
+            rw [this]; simp
+        refine ⟨rfl, rfl, rfl, rfl, rfl, ?_, ?_, ?_, ?_, ?_, ?_⟩
+        · simp only; rw [d2, d1]; simp
+        · simp only; rw [d2, d1]; simp
+        · simp only; rw [d2, d1, d2, d1]; simp
+        · simp only; rw [d2, d1]; simp; omega
+        · intro _; refine ⟨?_, ?_⟩
+          · simp only; rw [d2, d1]; simp
+          · simp only; split <;> omega
+        · intro hc; omega
+  · rename_i hge
+    split at h
+    · cases h
+    · rename_i b1 hb1
+      split at h
+      · cases h
+      · rename_i b2 hb2
+        have d2 := sendPos_ok hb2 (by decide)
+        rw [DutchV2.posPart_of_nonneg (by omega : 0 ≤ a.inCur - e.principal)] at d2
+        split at h
+        · cases h
+        · split at h
+          · cases h
+          · rename_i b3 hb3
+            cases h
+            obtain ⟨_, _, d3⟩ := send_ok hb3 (by decide)
+            have d1 : ∀ a' d', b1.get a' d' = s.bank.get a' d' - (if a' = Acct.auction ∧ d' = Denom.debt then e.principal else 0) := by
+              split at hb1
+              · exact (burn_ok hb1).2
+              · rename_i hz
+                cases hb1
+                intro a' d'
+                have : e.principal = 0 := by omega
+                rw [this]; simp
+            refine ⟨rfl, rfl, rfl, rfl, rfl, ?_, ?_, ?_, ?_, ?_, ?_⟩
+            · simp only; rw [d3, d2, d1]; simp
+            · simp only; rw [d3, d2, d1]; simp
+            · simp only; rw [d3, d2, d1, d3, d2, d1]; simp
+            · simp only; rw [d3, d2, d1]; simp; split <;> omega
+            · intro hc; omega
+            · intro _; refine ⟨?_, ?_, ?_⟩
+              · simp only; rw [d3, d2, d1]; simp
+              · simp only; split <;> omega
+              · simp only; rw [d3, d2, d1]; simp
+
 theorem step_inv {e : Env} {s : St} (hpr : 0 ≤ e.principal) (op : Op) (hi : Inv e s) : Inv e (step e s op) := by
   cases op with
   | bid who sl =>
@@ -287,6 +373,41 @@ theorem step_inv {e : Env} {s : St} (hpr : 0 ≤ e.principal) (op : Op) (hi : In
           exact ⟨o1, o2, o3, o4, o5, o6⟩
         · intro hn; simp at hn
       · exact hi
+
+  | tickEsm now twaC actC twaD actD snapshot =>
+    simp only [step]
+    split
+    · exact hi
+    · rename_i a ha
+      split
+      · exact hi
+      · rename_i a1 ha1
+        obtain ⟨i1, i2⟩ := priceUpdate_fields ha1
+        obtain ⟨o1, o2, o3, o4, o5, o6⟩ := hi.open_ a ha
+        -- the state with the updated price still satisfies the invariant
+        have hi1 : Inv e { s with auc := some a1 } := by
+          refine ⟨hi.paid_nonneg, hi.recv_nonneg, ?_, ?_⟩
+          · intro a'' h''
+            simp only [Option.some.injEq] at h''
+            subst h''
+            simp only
+            rw [i1, i2]
+            exact ⟨o1, o2, o3, o4, o5, o6⟩
+          · intro hn; simp at hn
+        split
+        · split
+          · rename_i s' hs'
+            have hin0 : 0 ≤ a1.inCur := by rw [i2, ← o1]; exact hi.paid_nonneg
+            obtain ⟨w1, w2, w3, w4, w5, w6, w7, _⟩ := windDown_ok hpr (by rw [i1]; exact o4) hin0 hs'
+            simp only at w2 w3 w4 w5 w6 w7
+            refine ⟨by rw [w2]; exact hi.paid_nonneg, by rw [w3]; exact hi.recv_nonneg, ?_, ?_⟩
+            · intro a' ha'; rw [w1] at ha'; cases ha'
+            · intro _
+              refine ⟨by rw [w2]; omega, by rw [w3]; omega, ?_, ?_⟩
+              · rw [w6, w4, i1]; omega
+              · rw [w7, w5, i2]; omega
+          · exact hi
+        · exact hi1
 
 theorem run_inv {e : Env} (hpr : 0 ≤ e.principal) (ops : List Op) (s : St) (hi : Inv e s) : Inv e (run e s ops) := by
   induction ops generalizing s with
